@@ -64,6 +64,17 @@ def gen_case(r):
         if be:
             expect[b] = 0 if v else 1
         values.append(bool(v))
+    if r.random() < 0.2:
+        # the same \\isundefined atom while a local definition is live and after its group has closed (and for a global one)
+        g.features.add('isundefined-across-group')
+        glob = r.random() < 0.3
+        names = ['zk' + alpha(nb + q) for q in range(4)]
+        nb += 4
+        inner = '\\ifthenelse{\\isundefined{\\zqloc}}{W%sx\\stepcounter{%s}}{W%sx\\stepcounter{%s}}' % (names[0][2:].upper(), names[0], names[1][2:].upper(), names[1])
+        outer = '\\ifthenelse{\\not\\isundefined{\\zqloc}}{W%sx\\stepcounter{%s}}{W%sx\\stepcounter{%s}}' % (names[2][2:].upper(), names[2], names[3][2:].upper(), names[3])
+        body += '{\\%s\\zqloc{1}%s}%s ' % ('gdef' if glob else 'def', inner, outer)
+        expect[names[0]], expect[names[1]] = 0, 1
+        expect[names[2]], expect[names[3]] = (1, 0) if glob else (0, 1)
     loops = []
     for j in range(r.choice([0, 0, 1, 2])):
         c = 'zl' + alpha(j)
